@@ -8,7 +8,9 @@ class Facts:
         with open(path) as f:
             d = json.load(f)
         import inline
-        self.inlined = inline.inline_new_helpers(d, inline.load_known())
+        known = inline.load_known()
+        d, self.renamed = inline.restore_renames(d, known)
+        self.inlined = inline.inline_new_helpers(d, known)
         self.raw = d
         self.crate = d['crate']
         self.features = d['cfg_features']
